@@ -210,3 +210,100 @@ func LockThenBreak(cl *qsim.Cluster, track func()) string {
 	cl.DeliverWhere(typeIs(specqbft.CommitMsgType), track)
 	return fmt.Sprintf("lock-then-break(lock r%d, break r%d, %s)", rL, rB, name)
 }
+
+// SplitPrepare is a directed prefix (parametrised by the rng): one correct operator a becomes prepared on v in round 1
+// (only it receives the prepare quorum), everybody times out, and in round 2 the other correct operators accept and
+// prepare a different value v' that is legitimately justified by a quorum of UNPREPARED round-changes (theirs plus the
+// Byzantine ones; a's prepared round-change arrives late). Commits are lost. Result: correct operators prepared on two
+// values in different rounds - reachable with asynchrony and <= f Byzantine operators that follow the message grammar.
+func SplitPrepare(cl *qsim.Cluster, track func()) bool {
+	n, h := cl.Cfg.N, cl.Cfg.Height
+	hon, byz := cl.Honest(), cl.ByzNodes()
+	if len(byz) == 0 {
+		return false
+	}
+	isT := func(t specqbft.MessageType) func(f *qsim.Flight) bool {
+		return func(f *qsim.Flight) bool { return f.Msg.Message.MsgType == t && len(f.Msg.Signers) == 1 }
+	}
+	anyF := func(*qsim.Flight) bool { return true }
+	l1, l2 := cl.Nodes[qsim.Leader(n, h, 1)-1], cl.Nodes[qsim.Leader(n, h, 2)-1]
+	// a: a correct operator that does not lead round 2
+	var a *qsim.Node
+	for _, x := range hon {
+		if x != l2 {
+			a = x
+			break
+		}
+	}
+	if a == nil {
+		return false
+	}
+	// round 1 proposal reaches every correct operator
+	if l1.Byz {
+		cl.ByzSendTo(l1, cl.MkProposal(l1, 1, cl.Values[0], nil, nil), "proposal", hon)
+	}
+	cl.DeliverWhere(isT(specqbft.ProposalMsgType), track)
+	st := a.Inst()
+	if st == nil || st.ProposalAcceptedForCurrentRound == nil {
+		return false
+	}
+	v := st.ProposalAcceptedForCurrentRound.FullData
+	for _, z := range byz {
+		cl.ByzSendTo(z, cl.MkSimple(z, specqbft.PrepareMsgType, 1, qsim.Root(v)), "prepare", []*qsim.Node{a})
+	}
+	// only a receives the prepares
+	cl.DeliverWhere(func(f *qsim.Flight) bool { return f.To == a.ID && isT(specqbft.PrepareMsgType)(f) }, track)
+	cl.DropWhere(anyF)
+	if a.Inst().LastPreparedRound != 1 {
+		return false
+	}
+	// everybody times out of round 1
+	for _, x := range hon {
+		_ = cl.FireTimeoutFor(x, h, 1)
+	}
+	var others []*qsim.Node
+	for _, x := range hon {
+		if x != a {
+			others = append(others, x)
+		}
+	}
+	// round 2: unprepared round-changes of the others and of the Byzantine operators reach the others (a's is delayed)
+	for _, z := range byz {
+		cl.ByzSendTo(z, cl.MkRoundChange(z, 2, false), "round-change", others)
+	}
+	cl.DeliverWhere(func(f *qsim.Flight) bool {
+		return f.To != a.ID && f.From != a.ID && f.Msg.Message.MsgType == specqbft.RoundChangeMsgType && f.Msg.Message.Round == 2
+	}, track)
+	if l2.Byz {
+		var vp []byte
+		for _, x := range cl.Values {
+			if string(x) != string(v) {
+				vp = x
+			}
+		}
+		rcs := qsim.UniqueBySigner(cl.SeenOf(specqbft.RoundChangeMsgType, 2), func(m *specqbft.SignedMessage) bool {
+			return !m.Message.RoundChangePrepared()
+		})
+		cl.ByzSendTo(l2, cl.MkProposal(l2, 2, vp, rcs, nil), "proposal justified by unprepared round-changes", others)
+	}
+	cl.DeliverWhere(func(f *qsim.Flight) bool { return f.To != a.ID && isT(specqbft.ProposalMsgType)(f) }, track)
+	var vp []byte
+	for _, x := range others {
+		if st := x.Inst(); st != nil && st.ProposalAcceptedForCurrentRound != nil && st.Round == 2 {
+			vp = st.ProposalAcceptedForCurrentRound.FullData
+		}
+	}
+	if vp == nil || string(vp) == string(v) {
+		cl.DropWhere(anyF)
+		return false
+	}
+	for _, z := range byz {
+		cl.ByzSendTo(z, cl.MkSimple(z, specqbft.PrepareMsgType, 2, qsim.Root(vp)), "prepare", others)
+	}
+	cl.DeliverWhere(func(f *qsim.Flight) bool { return f.To != a.ID && isT(specqbft.PrepareMsgType)(f) }, track)
+	// commits and everything else in flight are lost
+	cl.DropWhere(anyF)
+	cl.Act("split-prepare done: n%d prepared on %s in round 1, the other correct operators on %s in round 2", a.ID, v[:2], vp[:2])
+	return true
+}
+
